@@ -141,34 +141,41 @@ def run(ctx):
             ctx.holds(r2, f"{INF}::hypotest", "prerequisite check dominates calculator creation")
         else:
             ctx.violated(r2, hyp, A.stmt_of(ccs[0], pm), "the calculator is created on a path that has not passed the prerequisite check", node=ccs[0])
-    # prerequisites function: two raises with the documented types and conditions
-    found = {}
-    for n in ast.walk(pre.node):
-        if isinstance(n, ast.If):
-            rs = [r for r in n.body if isinstance(r, ast.Raise)]
-            if rs:
-                e = rs[0].exc.func if isinstance(rs[0].exc, ast.Call) else rs[0].exc
-                found[(A.dotted(e) or "").split(".")[-1]] = n.test
-    t = found.get("UnspecifiedPOI")
-    if t is not None and "poi_index" in A.unparse(t) and "None" in A.unparse(t):
-        ctx.holds(r2, f"{INF}::_check_hypotest_prerequisites", "poi_index is None -> UnspecifiedPOI")
-    else:
-        ctx.violated(r2, pre, "UnspecifiedPOI check", "a model without a POI is not refused with UnspecifiedPOI", found=str(sorted(found)))
-    t = found.get("InvalidModel")
-    if t is not None and any(A.call_attr(c) == "all_pois_floating" for c in A.calls_in(t)) and isinstance(t, ast.UnaryOp) and isinstance(t.op, ast.Not):
-        c0 = [c for c in A.calls_in(t) if A.call_attr(c) == "all_pois_floating"][0]
-        if len(c0.args) >= 2 and "fixed_params" in A.names_loaded(c0.args[1]):
-            ctx.holds(r2, f"{INF}::_check_hypotest_prerequisites", "fixed POI -> InvalidModel")
-        else:
-            ctx.violated(r2, pre, c0, "the fixed-POI test does not look at the fixed_params actually used", node=c0)
-    else:
-        ctx.violated(r2, pre, "InvalidModel check", "a fixed POI is not refused with InvalidModel", found=str(sorted(found)))
-    rets = [r for r in ast.walk(apf.node) if isinstance(r, ast.Return) and r.value is not None]
-    src = " ".join(A.unparse(r.value) for r in rets) + " " + " ".join(A.unparse(n.value) for n in ast.walk(apf.node) if isinstance(n, ast.Assign))
-    if "fixed_params[pdf.config.poi_index]" in src.replace(" ", "") and any(isinstance(r.value, ast.UnaryOp) and isinstance(r.value.op, ast.Not) for r in rets):
-        ctx.holds(r2, f"{UT}::all_pois_floating", "not fixed_params[poi_index]")
-    else:
-        ctx.violated(r2, apf, "all_pois_floating", "all_pois_floating does not return `not fixed_params[poi_index]`", found=src[:120])
+    # prerequisites: interpreted on the four situations
+    from ..alg import NotHandled, RaisedInFragment
+    from ..objmodel import World
+    for lab, poi_index, fixed_given, fixed_suggested, want in (
+        ("no POI defined", None, None, [False, False], "UnspecifiedPOI"),
+        ("POI fixed in the mask given", 1, [False, True], [False, False], "InvalidModel"),
+        ("POI free, another parameter fixed", 1, [True, False], [False, False], None),
+        ("explicit all-free mask, model suggestion irrelevant", 0, [False, False], [False, False], None),
+    ):
+        site = f"{INF}::_check_hypotest_prerequisites [{lab}]"
+        try:
+            cfgo = Obj("config", {"poi_index": None if poi_index is None else Poly.const(poi_index)})
+
+            def sugg(recv, a, k, fixed_suggested=fixed_suggested):
+                if not (isinstance(recv, Obj) and recv.name == "config"):
+                    raise NotHandled()
+                return list(fixed_suggested)
+
+            w = World({"__strict__": True, ".suggested_fixed": sugg}, module_env={"exceptions": Obj("exceptions"), "utils": Obj("utils")})
+            w.add_func(pre).add_func(apf)
+            w.call_func(pre, [Obj("pdf", {"config": cfgo}), Obj("data"), Obj("init"), Obj("bounds"), fixed_given])
+            if want is None:
+                ctx.holds(r2, site, "accepted")
+            else:
+                ctx.violated(r2, pre, f"prerequisites [{lab}]", f"a hypothesis test is not refused when {lab}", expected=f"raise {want}", found="accepted")
+        except RaisedInFragment as e:
+            cls_ = e.exc_name.split(".")[-1]
+            if want == cls_:
+                ctx.holds(r2, site, f"refused with {cls_}")
+            elif want is None:
+                ctx.violated(r2, pre, f"prerequisites [{lab}]", f"a legitimate hypothesis test is refused with {e.exc_name}")
+            else:
+                ctx.violated(r2, pre, f"prerequisites [{lab}]", f"refused with {e.exc_name}, documented is {want}")
+        except (Undecided, KeyError, TypeError, IndexError, AttributeError) as e:
+            ctx.unrecognised(r2, pre, f"prerequisites [{lab}]", f"not interpretable: {type(e).__name__}: {e}")
     if order_log:
         if "teststatistic" in order_log and "distributions" in order_log and order_log.index("teststatistic") < order_log.index("distributions"):
             ctx.holds(r2, f"{INF}::hypotest", "teststatistic before distributions")
